@@ -10,6 +10,9 @@ import ElysModel.Gen.Arith.perpStopLossGuards
 import ElysModel.Gen.Arith.perpTakeProfitGuards
 import ElysModel.Gen.Arith.lpLiquidateGuards
 import ElysModel.Gen.Arith.lpStopLossGuards
+import ElysModel.Gen.Arith.perpOpenHealthGuards
+import ElysModel.Gen.Arith.perpConsolidateHealthGuards
+import ElysModel.Gen.Arith.lpOpenHealthGuards
 import ElysModel.Gen.Arith.Table
 import ElysModel.Close.Model
 namespace Elys.Close.C10Src
@@ -73,5 +76,30 @@ theorem gen_free_lp_guards :
 theorem gen_free_perp_guards :
     Gen.Arith.freeOf "perpStopLossGuards" = ["#0.GetAssetPrice(#1, #2.TradingAsset)", "#0.GetAssetPrice(#1, #2.TradingAsset)#err", "#2.Position", "#2.StopLossPrice"] ∧
     Gen.Arith.freeOf "perpTakeProfitGuards" = ["#0.GetAssetPrice(#1, #2.TradingAsset)", "#0.GetAssetPrice(#1, #2.TradingAsset)#err", "#2.Position", "#2.TakeProfitPrice"] := by decide
+
+/-- opens start healthy, as the source has it now: the window of x/perpetual/keeper/process_open.go `ProcessOpen`, open_consolidate.go
+`OpenConsolidate` and x/leveragelp/keeper/position_open.go `ProcessOpenLong` from the reading of the position's health to the statement
+after the check lets an open go on exactly when the model's `openAccepted` holds of that health and the safety factor — unconditionally:
+no other variable of the function takes part (the parameters in front are ignored), so no path through the window skips the check.
+(That the health read here is the health the liquidation path computes is the probe rounds' clause, not this theorem's.) -/
+theorem gen_open_starts_healthy (lev coll pool : Int) (bc : String) (health safety : Int) :
+    (Gen.Arith.perpOpenHealthGuards lev coll pool bc health false safety = .ok true ↔ openAccepted health safety = true) ∧
+    (Gen.Arith.perpConsolidateHealthGuards bc health false safety = .ok true ↔ openAccepted health safety = true) ∧
+    (Gen.Arith.lpOpenHealthGuards pool health false safety = .ok true ↔ openAccepted health safety = true) := by
+  unfold Gen.Arith.perpOpenHealthGuards Gen.Arith.perpConsolidateHealthGuards Gen.Arith.lpOpenHealthGuards openAccepted
+  refine ⟨?_, ?_, ?_⟩ <;> by_cases h : health ≤ safety <;> simp [h, pure, Except.pure]
+
+/-- a health that cannot be read refuses the open. -/
+theorem gen_open_no_reading (lev coll pool : Int) (bc : String) (health safety : Int) :
+    Gen.Arith.perpOpenHealthGuards lev coll pool bc health true safety ≠ .ok true ∧
+    Gen.Arith.perpConsolidateHealthGuards bc health true safety ≠ .ok true ∧
+    Gen.Arith.lpOpenHealthGuards pool health true safety ≠ .ok true := by
+  unfold Gen.Arith.perpOpenHealthGuards Gen.Arith.perpConsolidateHealthGuards Gen.Arith.lpOpenHealthGuards
+  refine ⟨?_, ?_, ?_⟩ <;> simp
+
+/-- what the three windows read: the health of THIS position as the keeper's health function returns it, and the module's safety factor. -/
+theorem gen_free_open_guards :
+    Gen.Arith.freeOf "perpOpenHealthGuards" = ["#0.GetMTPHealth(#1, #2, ammPool, #7)", "#0.GetMTPHealth(#1, #2, ammPool, #7)#err", "#0.GetSafetyFactor(#1)"] ∧
+    Gen.Arith.freeOf "lpOpenHealthGuards" = ["#0.GetPositionHealth(#1, #2)", "#0.GetPositionHealth(#1, #2)#err", "#0.GetSafetyFactor(#1)"] := by decide
 
 end Elys.Close.C10Src
